@@ -14,7 +14,7 @@ EXCLUDE = ["/trace/batch_span_processor.cc", "/logs/batch_log_record_processor.c
            "/trace/batch_span_processor_factory.cc", "/logs/batch_log_record_processor_factory.cc"]
 DRIVER = {"srcs": ["harness/batch_driver.cc", "harness/sched/sched.h", "harness/sched/bufproxy.h", "tools/shimcopy.py"], "sdk": True}
 TRACE_MODE = True
-IMPL_TIMEOUT = 1500
+IMPL_TIMEOUT = 7200      # thorough tier: ~15k forked cases; generous because the machine may be shared
 
 
 def build_driver():
@@ -107,7 +107,7 @@ def systematic(rng, tier):
 
 
 def gen_with(rng, tier, w_e, w_f, w_h):
-    n = 500 if tier == "quick" else 6000
+    n = 500 if tier == "quick" else 4000
     cases = systematic(rng, tier)
     for i in range(n):
         cases.append(one_case(rng, w_e, w_f, w_h, big=(i % 10 == 9)))
